@@ -59,9 +59,9 @@ int main(int argc, char **argv)
         if (!strstr(line, "9090909")) { continue; }
         int n = parse_ints(line, v, 256);
         int nn = (int)v[1], nd = (int)v[2], nh = (int)v[3];
-        if (n != 4 + nn + nd + 2 * nh || nn > 8 || nd > 8 || nh > 16) { fprintf(stderr, "bad line\n"); return 3; }
+        if (n != 4 + nn + nd + 2 * nh || nn > 24 || nd > 24 || nh > 16) { fprintf(stderr, "bad line\n"); return 3; }
         long const *num = v + 4, *den = num + nn, *x = den + nd, *ey = x + nh;
-        double dn[8], dd[8], in[9], outl[9], dx[17], y[17], y2[17], ys[17], y3[17], xs[17];
+        double dn[24], dd[24], in[25], outl[25], dx[17], y[17], y2[17], ys[18], y3[17], xs[18];
         for (int i = 0; i < nn; ++i) { dn[i] = (double)num[i]; }
         for (int i = 0; i < nd; ++i) { dd[i] = (double)den[i]; }
         for (int i = 0; i < nh; ++i) { dx[i] = (double)x[i]; }
